@@ -67,6 +67,10 @@ pub fn input_class(bytes: &[u8], from: &str, to: &str) -> &'static str {
         if to == "toml" && json_has_dup_keys(bytes) {
             return "json_dupkey_toml";
         }
+        // the toml crate's private marker for date-times, spelled out in JSON text
+        if to == "toml" && bytes.windows(24).any(|w| w == b"$__toml_private_datetime") {
+            return "json_toml_datetime_marker";
+        }
     }
     ""
 }
@@ -740,7 +744,9 @@ fn boundaries(cx: &mut Ctx, seed: u64) {
 /// Pinned witnesses of the findings listed in KNOWN_FINDINGS.txt, so that each KNOWN-FINDING
 /// line is deterministic; a witness that stops failing simply validates without a deviation.
 fn witnesses(cx: &mut Ctx) {
-    let items: [(&'static str, &'static [u8], &'static [&'static str]); 7] = [
+    let items: [(&'static str, &'static [u8], &'static [&'static str]); 8] = [
+        // witness of the recorded finding json_toml_datetime_marker
+        ("json", b"{\"d\":{\"$__toml_private_datetime\":\"1979-05-27\"}}", &["toml"]),
         // directives that the document uses: they belong to its chunk
         ("yaml", b"%TAG !y! tag:yaml.org,2002:\n--- !y!str 123\n", &["json", "yaml"]),
         ("yaml", b"- a\n...\n%TAG !y! tag:yaml.org,2002:\n---\nk: !y!str 5\n", &["json", "msgpack"]),
